@@ -550,6 +550,169 @@ theorem mergedG_map_on (decl add : List V) (hd : ∀ x ∈ decl, P x) (ha : ∀ 
       · rw [h]; exact ha a (by simp)
     · intro x hx; exact ha x (by simp [hx])
 
+theorem mergedG_all (decl add : List V) (hd : ∀ x ∈ decl, P x) (ha : ∀ x ∈ add, P x) :
+    ∀ x ∈ mergedG key rel decl add, P x := by
+  unfold mergedG
+  induction add generalizing decl with
+  | nil => exact hd
+  | cons a rest ih =>
+    simp only [List.foldl_cons]
+    apply ih
+    · intro x hx
+      rcases mergeOneG_mem key rel decl a x hx with h | h
+      · exact hd x h
+      · rw [h]; exact ha a (by simp)
+    · intro x hx; exact ha x (by simp [hx])
+
+theorem dictPutG_all (d : List V) (v : V) (hd : ∀ x ∈ d, P x) (hv : P v) : ∀ x ∈ dictPutG key d v, P x := by
+  intro x hx
+  unfold dictPutG at hx
+  split at hx
+  · obtain ⟨y, hy, hxy⟩ := List.mem_map.1 hx
+    split at hxy
+    · rw [← hxy]; exact hv
+    · rw [← hxy]; exact hd y hy
+  · rcases List.mem_append.1 hx with h | h
+    · exact hd x h
+    · simp at h; rw [h]; exact hv
+
+theorem dictOfG_all (vs : List V) (hv : ∀ x ∈ vs, P x) : ∀ x ∈ dictOfG key vs, P x := by
+  unfold dictOfG
+  have : ∀ d : List V, (∀ x ∈ d, P x) → ∀ x ∈ vs.foldl (dictPutG key) d, P x := by
+    induction vs with
+    | nil => intro d hd; exact hd
+    | cons v rest ih =>
+      intro d hd
+      simp only [List.foldl_cons]
+      exact ih (fun x hx => hv x (by simp [hx])) _ (dictPutG_all key P d v hd (hv v (by simp)))
+  exact this [] (by intro x hx; simp at hx)
+
+include hkey in
+theorem dictPutG_map_on (d : List V) (v : V) (hd : ∀ x ∈ d, P x) (hv : P v) :
+    dictPutG key' (d.map f) (f v) = (dictPutG key d v).map f := by
+  unfold dictPutG
+  rw [any_key_map_on key key' f P hkey d v hd hv]
+  split
+  · simp only [List.map_map]
+    apply List.map_congr_left
+    intro x hx
+    simp only [Function.comp]
+    by_cases h : key x = key v
+    · have : key' (f x) = key' (f v) := (hkey x v (hd x hx) hv).2 h
+      simp [h, this]
+    · have : ¬ key' (f x) = key' (f v) := fun e => h ((hkey x v (hd x hx) hv).1 e)
+      simp [h, this]
+  · simp
+
+include hkey in
+theorem dictOfG_map_on (vs : List V) (hv : ∀ x ∈ vs, P x) : dictOfG key' (vs.map f) = (dictOfG key vs).map f := by
+  unfold dictOfG
+  have : ∀ d : List V, (∀ x ∈ d, P x) →
+      (vs.map f).foldl (dictPutG key') (d.map f) = (vs.foldl (dictPutG key) d).map f := by
+    induction vs with
+    | nil => intro d _; rfl
+    | cons v rest ih =>
+      intro d hd
+      simp only [List.map_cons, List.foldl_cons]
+      rw [dictPutG_map_on key key' f P hkey d v hd (hv v (by simp))]
+      exact ih (fun x hx => hv x (by simp [hx])) _ (dictPutG_all key P d v hd (hv v (by simp)))
+  exact this [] (by intro x hx; simp at hx)
+
+theorem ownFold_all (own : List (List V)) (acc : List V) (hacc : ∀ x ∈ acc, P x) (ho : ∀ syms ∈ own, ∀ v ∈ syms, P v) :
+    ∀ x ∈ own.foldl (fun a syms => mergedG key rel a (dictOfG key syms)) acc, P x := by
+  induction own generalizing acc with
+  | nil => exact hacc
+  | cons o rest ih =>
+    simp only [List.foldl_cons]
+    exact ih _ (mergedG_all key rel P acc _ hacc (dictOfG_all key P o (ho o (by simp))))
+      (fun syms hs => ho syms (by simp [hs]))
+
+include hkey hrel in
+theorem ownFold_map_on (own : List (List V)) (acc : List V) (hacc : ∀ x ∈ acc, P x) (ho : ∀ syms ∈ own, ∀ v ∈ syms, P v) :
+    (own.map (List.map f)).foldl (fun a syms => mergedG key' rel' a (dictOfG key' syms)) (acc.map f) =
+      (own.foldl (fun a syms => mergedG key rel a (dictOfG key syms)) acc).map f := by
+  induction own generalizing acc with
+  | nil => rfl
+  | cons o rest ih =>
+    have hoP := ho o (by simp)
+    simp only [List.map_cons, List.foldl_cons]
+    rw [dictOfG_map_on key key' f P hkey o hoP,
+      mergedG_map_on key rel key' rel' f P hkey hrel acc _ hacc (dictOfG_all key P o hoP)]
+    exact ih _ (mergedG_all key rel P acc _ hacc (dictOfG_all key P o hoP)) (fun syms hs => ho syms (by simp [hs]))
+
+mutual
+/-- every declaration of a statement tree satisfies `P` -/
+def Stmt.All (P : V → Prop) : Stmt V → Prop
+  | .mk own blocks => (∀ syms ∈ own, ∀ v ∈ syms, P v) ∧ Stmt.AllBlocks P blocks
+def Stmt.AllBlocks (P : V → Prop) : List (List (Stmt V)) → Prop
+  | [] => True
+  | b :: bs => Stmt.AllBlock P b ∧ Stmt.AllBlocks P bs
+def Stmt.AllBlock (P : V → Prop) : List (Stmt V) → Prop
+  | [] => True
+  | s :: ss => Stmt.All P s ∧ Stmt.AllBlock P ss
+end
+
+mutual
+theorem collectStmtG_all (acc : List V) (s : Stmt V) (hacc : ∀ x ∈ acc, P x) (hs : Stmt.All P s) :
+    ∀ x ∈ collectStmtG key rel acc s, P x := by
+  match s with
+  | .mk own blocks =>
+    simp only [Stmt.All] at hs
+    simp only [collectStmtG]
+    exact collectBlocksG_all _ blocks (ownFold_all key rel P own acc hacc hs.1) hs.2
+theorem collectBlocksG_all (acc : List V) (bs : List (List (Stmt V))) (hacc : ∀ x ∈ acc, P x) (hs : Stmt.AllBlocks P bs) :
+    ∀ x ∈ collectBlocksG key rel acc bs, P x := by
+  match bs with
+  | [] => simpa [collectBlocksG] using hacc
+  | b :: rest =>
+    simp only [Stmt.AllBlocks] at hs
+    simp only [collectBlocksG]
+    exact collectBlocksG_all _ rest
+      (mergedG_all key rel P acc _ hacc (collectBlockG_all [] b (by intro x hx; simp at hx) hs.1)) hs.2
+theorem collectBlockG_all (acc : List V) (ss : List (Stmt V)) (hacc : ∀ x ∈ acc, P x) (hs : Stmt.AllBlock P ss) :
+    ∀ x ∈ collectBlockG key rel acc ss, P x := by
+  match ss with
+  | [] => simpa [collectBlockG] using hacc
+  | s :: rest =>
+    simp only [Stmt.AllBlock] at hs
+    simp only [collectBlockG]
+    exact collectBlockG_all _ rest (collectStmtG_all acc s hacc hs.1) hs.2
+end
+
+include hkey hrel
+
+mutual
+theorem collectStmtG_map_on (acc : List V) (s : Stmt V) (hacc : ∀ x ∈ acc, P x) (hs : Stmt.All P s) :
+    collectStmtG key' rel' (acc.map f) (Stmt.map f s) = (collectStmtG key rel acc s).map f := by
+  match s with
+  | .mk own blocks =>
+    simp only [Stmt.All] at hs
+    simp only [Stmt.map, collectStmtG]
+    rw [ownFold_map_on key rel key' rel' f P hkey hrel own acc hacc hs.1]
+    exact collectBlocksG_map_on _ blocks (ownFold_all key rel P own acc hacc hs.1) hs.2
+theorem collectBlocksG_map_on (acc : List V) (bs : List (List (Stmt V))) (hacc : ∀ x ∈ acc, P x) (hs : Stmt.AllBlocks P bs) :
+    collectBlocksG key' rel' (acc.map f) (Stmt.mapBlocks f bs) = (collectBlocksG key rel acc bs).map f := by
+  match bs with
+  | [] => simp [Stmt.mapBlocks, collectBlocksG]
+  | b :: rest =>
+    simp only [Stmt.AllBlocks] at hs
+    simp only [Stmt.mapBlocks, collectBlocksG]
+    have hb := collectBlockG_map_on [] b (by intro x hx; simp at hx) hs.1
+    simp only [List.map_nil] at hb
+    have hball := collectBlockG_all key rel P [] b (by intro x hx; simp at hx) hs.1
+    rw [hb, mergedG_map_on key rel key' rel' f P hkey hrel acc _ hacc hball]
+    exact collectBlocksG_map_on _ rest (mergedG_all key rel P acc _ hacc hball) hs.2
+theorem collectBlockG_map_on (acc : List V) (ss : List (Stmt V)) (hacc : ∀ x ∈ acc, P x) (hs : Stmt.AllBlock P ss) :
+    collectBlockG key' rel' (acc.map f) (Stmt.mapBlock f ss) = (collectBlockG key rel acc ss).map f := by
+  match ss with
+  | [] => simp [Stmt.mapBlock, collectBlockG]
+  | s :: rest =>
+    simp only [Stmt.AllBlock] at hs
+    simp only [Stmt.mapBlock, collectBlockG]
+    rw [collectStmtG_map_on acc s hacc hs.1]
+    exact collectBlockG_map_on _ rest (collectStmtG_all key rel P acc s hacc hs.1) hs.2
+end
+
 end
 
 end Tranp.Scope
